@@ -207,6 +207,36 @@ func (w *World) Retoggle(cn, dn string) (string, string) {
 	return "ok", ""
 }
 
+// NewClient: governance on chain cn creates a TSS client for a further chain whose name is a proper prefix of the
+// name of cn's counterparty dn (mode "prefix": the name without its last 1, 2, ... characters) or extends it (mode
+// "ext").  Each call uses the next free name of its kind.
+func (w *World) NewClient(cn, dn, mode string) (string, string) {
+	c, d := w.Chains[cn], w.Chains[dn]
+	name := ""
+	for i := 1; i < len(d.ChainID)-3 && name == ""; i++ {
+		cand := d.ChainID[:len(d.ChainID)-i]
+		if mode == "ext" {
+			cand = d.ChainID + strings.Repeat("0", i)
+		}
+		taken := cand == c.ChainID
+		for _, o := range w.Chains {
+			if o.ChainID == cand {
+				taken = true
+			}
+		}
+		if _, ok := c.App.XIBCKeeper.ClientKeeper.GetClientState(c.Ctx(), cand); !ok && !taken {
+			name = cand
+		}
+	}
+	if name == "" {
+		return "err", "no free name"
+	}
+	tss := &tsstypes.ClientState{TssAddress: c.Accts[AcctOutside].Acc.String(), Pubkey: []byte{1, 2, 3}, PartPubkeys: [][]byte{{4}, {5}}, Threshold: 2}
+	p, err := clienttypes.NewCreateClientProposal("t", "d", name, tss, &tsstypes.ConsensusState{})
+	must(err)
+	return c.ExecProposal(p)
+}
+
 func addrp(a common.Address) *common.Address { return &a }
 
 func mustPack(a interface {
